@@ -87,11 +87,24 @@ def check(P, R):
              f'the node is folded into its first child although the guard only establishes {[("not " if not h_ else "") + short(e_) for e_, h_ in others] or "nothing about the number of children"}: '
              f'with two children left after a removal the second subtree vanishes from the tree while routes / named_routes still list it (its path answers 404)',
              why='survivors are intact after any removal', key_extra='fold-single-child')
-    sites = [('prune test of remove', rm, prune[0]), ('guard of _try_merge', tm, guards[0]), ('yield test of _routes_iter', ri, ytests[0])]
+    # what the guard of _try_merge establishes is read off the facts that hold where the fold happens (a negative guard with an early return and a positive
+    # condition kept in flags give the same facts)
+    class _Facts:
+        ast = None
+    merge_facts = _Facts()
+    facts_expr = []
+    for fn_ in fold:
+        for (e_, holds_, _t) in T.guard_atoms(tm, fn_):
+            if not holds_ and not (compare_parts(e_)):
+                facts_expr.append(e_)            # a slot read that is falsy here: the node carries nothing in it
+            elif holds_ and isinstance(e_, ast.UnaryOp):
+                facts_expr.append(e_.operand)
+    merge_facts.ast = ast.Tuple(elts=facts_expr, ctx=ast.Load()) if facts_expr else guards[0].ast
+    sites = [('prune test of remove', rm, prune[0]), ('guard of _try_merge', tm, merge_facts if fold else guards[0]), ('yield test of _routes_iter', ri, ytests[0])]
     for (role, fn, n) in sites:
         have = payload_slots(n.ast) & {'DATA', 'HOOKS'}
         ok = have == {'DATA', 'HOOKS'}
-        R.ob('C11.a', fn, n.ast, ok, text=f'{role}: payload slots {sorted(have)}', detail='' if ok else
+        R.ob('C11.a', fn, n.ast if getattr(n.ast, 'lineno', None) else (fold[0].ast if fold else fn.node), ok, text=f'{role}: payload slots {sorted(have)}', detail='' if ok else
              f'{role} ignores {sorted({"DATA", "HOOKS"} - have)}: a node that only carries a route hook is treated as empty '
              f'(pruned / merged into its child) although the hook index still lists it',
              why='hooks survive the removal of routes around them; a fresh router built from the survivors fires them',
